@@ -179,7 +179,7 @@ Print Assumptions handed_over_container_is_copied.
    (First reads are silent in every mode: first_read_is_default_and_silent does not depend on t_cmp.) *)
 Theorem assignment_notifies_by_comparison_mode :
   forall (w : world) (ins : inst) (n : Z) (content : list Z) (scalar : Z) (t : tdef) (ov : value) (h : Z) (hs : list Z),
-    resolve w ins n = Some t -> hids ins t n = h :: hs -> alookup n (i_dict ins) = Some ov ->
+    resolve w ins n = Some t -> hids w ins t n = h :: hs -> alookup n (i_dict ins) = Some ov ->
     let v := fst (assigned_value t content scalar (w_next w)) in
     let same := (shape_class (v_shape ov) =? shape_class (v_shape v)) && zlist_eqb (vcontent ov) (vcontent v) in
     let calls := map (fun x => (x, n, vcontent ov, vcontent v)) (h :: hs) in
@@ -197,7 +197,7 @@ Theorem delete_reverts_to_a_stored_default :
   forall (w : world) (ins : inst) (n : Z) (ov : value) (t : tdef),
     alookup n (i_dict ins) = Some ov -> resolve w ins n = Some t ->
     let ins' := fst (fst (delete_inst w ins n)) in
-    match hids ins t n with
+    match hids w ins t n with
     | [] => alookup n (i_dict ins') = None /\ alookup n (i_calls ins') = None
     | _ :: _ => alookup n (i_dict ins') = Some (fst (default_value t (w_next w)))
                 /\ alookup n (i_calls ins') = (if counted t then Some 1 else None)
